@@ -43,6 +43,17 @@ macro_rules! class {
         cb_cmp(self.id as u32, o.id as u32)
       }
     }
+    impl serde::Serialize for $name {
+      fn serialize<S: serde::Serializer>(&self, s: S) -> Result<S::Ok, S::Error> {
+        s.serialize_u32(self.id as u32)
+      }
+    }
+    impl<'de> serde::Deserialize<'de> for $name {
+      /// an i64 = val; the element is created (fresh id) at this moment
+      fn deserialize<D: serde::Deserializer<'de>>(d: D) -> Result<Self, D::Error> {
+        d.deserialize_i64(crate::serde_script::I64Visitor).map(<Self as El>::new)
+      }
+    }
     impl core::hash::Hash for $name {
       fn hash<H: core::hash::Hasher>(&self, h: &mut H) {
         h.write_i64(cb_hash(self.id as u32));
